@@ -81,6 +81,7 @@ struct Run {
     db_gets: u64,
     /// `Spec::System` handles that were the stand-in zone (no unnamed system zone available).
     system_standins: u64,
+    side_allocs_outliving: u64,
     db_paths: [u64; 11],
     /// Name -> instance the *global* database (`jiff::tz::db()`) caches.
     gdb_cached: HashMap<u8, u32>,
@@ -824,6 +825,18 @@ fn check_memory_impl(after: &str, full: bool) {
                 with_run(|r| r.interior_reallocs += 1);
             }
         } else if handles == 0 && live > 0 && !with_run(|r| r.zones[z].pinned) {
+            // What must go with the last handle is the zone: the block the
+            // handles pointed into. Other allocations made while the zone was
+            // created may belong to something shared and longer-lived (a node
+            // of an interning table, say); they only count when that block
+            // is unknown.
+            let block = with_run(|r| r.zones[z].arc_block);
+            if let Some((addr, serial)) = block {
+                if alloc::live_at(addr).map(|l| l.1) != Some(serial) {
+                    with_run(|r| r.side_allocs_outliving += 1);
+                    continue;
+                }
+            }
             violate(
                 "leak",
                 format!(
@@ -983,6 +996,7 @@ fn run_case(
             db_mtime: 0,
             db_gets: 0,
             system_standins: 0,
+            side_allocs_outliving: 0,
             db_paths: [0; 11],
             gdb_cached: HashMap::new(),
         });
@@ -1207,10 +1221,18 @@ pub fn warm_up() {
 }
 
 fn thread_warm_up() {
-    for spec in [Spec::Posix(0), Spec::TzifSynth { k: 1, tr: true }, Spec::Fixed(1)] {
-        let tz = interp::make_tz(&spec);
-        let _ = interp::answer(&tz, 1, 3);
-        let _ = interp::answer(&tz, 7, 3);
+    // Runs before the thread first takes the baton, i.e. possibly while
+    // another simulated thread executes an operation: use zones no program
+    // can create, so that an implementation that shares equal zones
+    // (interning) cannot hand a warm-up zone to a program.
+    let zones = [
+        TimeZone::posix("WRM7WDT,M3.2.0,M11.1.0").unwrap(),
+        TimeZone::tzif("Warm/Up", &crate::zonegen::synth_tzif(86_000, true)).unwrap(),
+        TimeZone::fixed(Offset::from_seconds(1).unwrap()),
+    ];
+    for tz in zones.iter() {
+        let _ = interp::answer(tz, 1, 3);
+        let _ = interp::answer(tz, 7, 3);
     }
 }
 
@@ -1299,6 +1321,7 @@ impl Prop for C20 {
             stats.add("database.global.lookups_via.Zoned_strptime", run.db_paths[10]);
             stats.add("ignored.zoned_arithmetic_api_panics", run.api_panics);
             stats.add("tolerated.interior_buffers_replaced_while_handles_live", run.interior_reallocs);
+            stats.add("tolerated.side_allocations_outliving_their_zone", run.side_allocs_outliving);
             stats.add("oracle.memory_model_checks", run.mem_checks);
             stats.add("zones.instances", run.zones.len() as u64);
             stats.add(
